@@ -655,3 +655,113 @@ func ruleHardLimitGuard(c *eng.Ctx) {
 	})
 	c.Check(n > 0 && !raw, R, "rag.(*SizeCalculator).SplitToSize#cut", search.Pos(), "the text is cut at the guarded position", "the text is cut at the raw search result")
 }
+
+// R12.9 [C12]
+func ruleSectionPathChain(c *eng.Ctx) {
+	const R = "R12.9-SECTION-PATH"
+	c.Rule(R, "the element-walking chunker maintains the section path with the level of each entry: entering a heading closes every open entry whose level is the same or deeper (a loop over the recorded levels, not a count of entries, so skipped levels work) and the new path gets fresh storage (chunks already emitted keep the slice they were given)", 2, 0)
+	page := c.P.Func("rag.(*DocumentChunker).chunkPage")
+	if page == nil {
+		c.Undec(R, "rag.(*DocumentChunker).chunkPage", token.NoPos, "anchor not found")
+		return
+	}
+	// the function(s) chunkPage calls with the running path (a *[]string argument)
+	var pushers []*ssa.Function
+	seen := map[*ssa.Function]bool{}
+	for _, ci := range eng.Calls(page, true, func(string, ssa.CallInstruction) bool { return true }) {
+		h := ci.Common().StaticCallee()
+		if h == nil || !eng.InModule(h) || h.Blocks == nil || seen[h] {
+			continue
+		}
+		for _, p := range h.Params {
+			if pt, ok := p.Type().Underlying().(*types.Pointer); ok {
+				if st, ok := pt.Elem().Underlying().(*types.Slice); ok {
+					if bt, ok := st.Elem().Underlying().(*types.Basic); ok && bt.Info()&types.IsString != 0 {
+						writes := false
+						eng.Instrs(h, false, func(in ssa.Instruction) {
+							if s, ok := in.(*ssa.Store); ok && s.Addr == ssa.Value(p) {
+								writes = true
+							}
+						})
+						if writes {
+							seen[h] = true
+							pushers = append(pushers, h)
+						}
+					}
+				}
+			}
+		}
+	}
+	if len(pushers) == 0 {
+		c.Viol(R, "rag.(*DocumentChunker).chunkPage#path-update", page.Pos(), "chunkPage does not hand its running section path to a function that updates it")
+		return
+	}
+	for _, h := range pushers {
+		name := eng.FuncName(h)
+		// (a) fresh storage
+		freshAll, stores := true, 0
+		var pathParam ssa.Value
+		eng.Instrs(h, false, func(in ssa.Instruction) {
+			s, ok := in.(*ssa.Store)
+			if !ok {
+				return
+			}
+			par, isPar := s.Addr.(*ssa.Parameter)
+			if !isPar {
+				return
+			}
+			pt, ok := par.Type().Underlying().(*types.Pointer)
+			if !ok {
+				return
+			}
+			st, ok := pt.Elem().Underlying().(*types.Slice)
+			if !ok {
+				return
+			}
+			if bt, ok := st.Elem().Underlying().(*types.Basic); !ok || bt.Info()&types.IsString == 0 {
+				return
+			}
+			pathParam = par
+			stores++
+			// popping (a re-slice of the old path) shares storage by design; growing must not
+			if call, ok := s.Val.(*ssa.Call); ok {
+				if bi, ok := call.Call.Value.(*ssa.Builtin); ok && bi.Name() == "append" {
+					if !eng.IsFresh(call.Call.Args[0]) {
+						freshAll = false
+					}
+				}
+			}
+		})
+		c.Check(stores > 0 && freshAll, R, name+"#fresh-path", h.Pos(), "a grown path gets its own storage", "the section path is extended in place: a chunk emitted earlier shares the backing array and sees its last entry replaced by the next sibling heading")
+		_ = pathParam
+		// (b) closing by recorded levels: a loop that compares an element of an []int (through a *[]int parameter) with the new level
+		byLevel := false
+		eng.Instrs(h, false, func(in ssa.Instruction) {
+			b, ok := in.(*ssa.BinOp)
+			if !ok || !eng.InLoop(b.Block()) {
+				return
+			}
+			switch b.Op {
+			case token.GEQ, token.GTR, token.LSS, token.LEQ:
+			default:
+				return
+			}
+			for _, side := range []ssa.Value{b.X, b.Y} {
+				ld, ok := side.(*ssa.UnOp)
+				if !ok || ld.Op != token.MUL {
+					continue
+				}
+				ia, ok := ld.X.(*ssa.IndexAddr)
+				if !ok {
+					continue
+				}
+				if st, ok := ia.X.Type().Underlying().(*types.Slice); ok {
+					if bt, ok := st.Elem().Underlying().(*types.Basic); ok && bt.Info()&types.IsInteger != 0 {
+						byLevel = true
+					}
+				}
+			}
+		})
+		c.Check(byLevel, R, name+"#close-by-level", h.Pos(), "open sections are closed by comparing their recorded level", "open sections are closed by counting path entries instead of comparing the heading level of each entry: with skipped levels (H1, H3, H3) the second H3 is nested under the first")
+	}
+}
